@@ -6,10 +6,11 @@ CONSTANTS
   RulesBad = {"RBAD", "RMISSING"}
   CsvOK = {"K1", "K2"}
   CsvBad = {"KMISSING"}
-  Txns = {"t1", "t2"}
+  Txns = {"t1", "t2", "t3", "t4"}
   Exprs = {"e1", "e2", "e3", "e4", "e5", "e6"}
   Impl = "pinned"
   WithClear = TRUE
+  WithObj = FALSE
   MaxSteps = 100
 VIEW view
 INVARIANT HistoryIndependent
